@@ -12,7 +12,7 @@ ID = 'C12'
 LEVEL = 'exploration'
 RUNS = {'quick': 16000, 'thorough': 300000}
 CHUNK = 40
-PROBES = ['cli_filters_compared', 'other_request_while_listing_pending', 'numeric_looking_process_filter', 'tid_zero_filter', 'filter_list_edited_in_place', 'boundary_subclass_event_kept', 'class_filter', 'subclass_filter', 'class_and_subclass', 'tid_filter', 'tid_and_class', 'empty_lists', 'tuple_filter',
+PROBES = ['settings_changed_while_listing_pending', 'cli_filters_compared', 'other_request_while_listing_pending', 'numeric_looking_process_filter', 'tid_zero_filter', 'filter_list_edited_in_place', 'boundary_subclass_event_kept', 'class_filter', 'subclass_filter', 'class_and_subclass', 'tid_filter', 'tid_and_class', 'empty_lists', 'tuple_filter',
           'filter_matches_nothing', 'log_listing', 'log_process_filter_by_name', 'log_process_filter_by_pid', 'log_tid_filter',
           'abandoned_listing_before', 'reconfigured_between_requests', 'v3_dump']
 RULE = ('one run = one long-lived PyKdebugParser, a history of 2..7 operations (reconfigure filters, abandoned listing, judged '
@@ -26,7 +26,7 @@ ASSUMPTIONS = ['a judged listing is created, exhausted and compared under one co
 def _gen_filters(rng, dump, stream_ids, tids, procs):
     f = {}
     if rng.chance(0.5):
-        f['tid'] = rng.pick(tids + [12345]) if tids else 12345
+        f['tid'] = rng.pick(tids + [12345, -1, -5]) if tids else 12345      # (a negative number is no thread's id: nothing matches)
         if dump.get('lifecycle_tid') is not None and rng.chance(0.5):
             f['tid'] = dump['lifecycle_tid']
     classes = sorted({i >> 24 for i in stream_ids})
@@ -45,7 +45,7 @@ def _gen_filters(rng, dump, stream_ids, tids, procs):
         f['cls'] = []
         f['sub'] = []
     if rng.chance(0.3):
-        f['proc'] = rng.pick(procs) if procs and rng.chance(0.8) else rng.pick(['nosuch', '', '0'])
+        f['proc'] = rng.pick(procs) if procs and rng.chance(0.75) else rng.pick(['nosuch', '', '', '0'])
         if len(f['proc']) > 19 and rng.chance(0.5):
             f['proc'] = f['proc'][:19]          # the name as a thread map would have truncated it: a different string
         if f['proc'].isdigit() and rng.chance(0.3):
@@ -134,7 +134,9 @@ def generate(rng, index, tier):
             hist.append({'op': 'abandon', 'dump': di, 'what': rng.pick(['kevents', 'logs']), 'after': rng.randint(0, 3)})
         else:
             req = {'op': 'request', 'dump': di, 'what': rng.pick(['kevents', 'kevents', 'logs'])}
-            if rng.chance(0.25):
+            if rng.chance(0.1):
+                req['reconfigured_while_pending'] = _gen_filters(rng, d, sids, tids, procs) if rng.chance(0.6) else {}
+            elif rng.chance(0.25):
                 # between creating the judged listing and consuming it, ANOTHER request is issued on the same object
                 # (the configuration stays as it is)
                 req['meanwhile'] = {'what': rng.pick(['traces', 'traces', 'kevents', 'callstacks', 'logs']), 'dump': rng.randrange(len(dumps)),
@@ -256,6 +258,33 @@ def execute(scn):
             bump('probe:abandoned_listing_before')
             bump('fault:abandon')
             hist.append(['abandon', what])
+            continue
+        if h.get('reconfigured_while_pending'):
+            # the settings change between making the listing and reading it.  Which instant's settings the listing follows is
+            # not judged; what holds under any settings is: an event listing holds events of the dump, in file order, and no
+            # log record; a log listing holds log records only
+            bump('probe:settings_changed_while_listing_pending')
+            bump('fault:reconfigure')
+            try:
+                pending = (p.kevents if what == 'kevents' else p.os_log_events)(SimReader(files[di]))
+                apply_filters(p, h['reconfigured_while_pending'])
+                items, exc = common.drain(lambda: pending)
+            except Exception as e:
+                items, exc = [], e
+            apply_filters(p, cur)
+            ritems, rexc = ref(di, what)
+            if exc is None and rexc is None:
+                if what == 'kevents':
+                    if any(common.is_log(e) for e in items):
+                        viols.append({'tag': 'log-in-event-listing', 'sig': 'kevents:reconfigured', 'detail': 'settings %r changed to %r while the listing was pending' % (cur, h['reconfigured_while_pending'])})
+                    else:
+                        allev = [common.ev_tuple(e) for e in ritems]
+                        it_ = iter(allev)
+                        if not all(any(x == y for y in it_) for x in (common.ev_tuple(e) for e in items)):
+                            viols.append({'tag': 'listing-not-a-subsequence', 'sig': 'kevents:reconfigured', 'detail': 'events listed that the dump does not hold in that order'})
+                elif any(not common.is_log(e) for e in items):
+                    viols.append({'tag': 'event-in-log-listing', 'sig': 'logs:reconfigured', 'detail': ''})
+            hist.append(['request-reconfigured', what, len(items), type(exc).__name__ if exc else None])
             continue
         if h.get('meanwhile'):
             mw = h['meanwhile']
